@@ -129,6 +129,12 @@ func cmdWorker(args []string) int {
 	fs.Parse(args)
 	p := profile(*prop)
 	known := loadFindings(*prop)
+	// watchdog: a run that does not finish is harness trouble (exit 3), never a verdict
+	wd := 240 + 2*(*shrinkS)
+	time.AfterFunc(time.Duration(wd)*time.Second, func() {
+		fmt.Fprintf(os.Stderr, "watchdog: worker %s seed %d runs %d..%d exceeded %ds\n", *prop, *seed, *from, *to, wd)
+		os.Exit(3)
+	})
 	var sink *os.File = os.Stdout
 	if os.Getenv("HAQQSIM_OUT_FD") == "3" {
 		// results go to a dedicated descriptor: the application's tracers print to stdout/stderr
@@ -144,7 +150,7 @@ func cmdWorker(args []string) int {
 		res := e.RunGenerate(p, *seed, run, *tier)
 		wo := workerOut{RunResult: res}
 		steps := res.Steps
-		if run < *from+2*(*stride) && len(steps) > 0 { // first runs of each worker carry a sample
+		if run < 3 && len(steps) > 0 { // the first runs of a batch carry a sample
 			h := steps
 			if len(h) > 14 {
 				h = h[:14]
@@ -157,7 +163,29 @@ func cmdWorker(args []string) int {
 			} else {
 				// minimise, write the replay file
 				orig := len(steps)
-				ms, mv, tries := e.Shrink(p, res.Config, steps, res.Violation, time.Duration(*shrinkS)*time.Second)
+				// every candidate is replayed in a fresh process
+				self, _ := os.Executable()
+				os.MkdirAll(filepath.Join(verifDir, ".work"), 0o755)
+				tmp := filepath.Join(verifDir, ".work", fmt.Sprintf("cand-%s-%d-%d-%d.json", *prop, *seed, run, os.Getpid()))
+				runCand := func(c []e.Step) *e.Violation {
+					if err := e.WriteReplay(tmp, &e.ReplayFile{Property: *prop, Config: res.Config, Steps: c}); err != nil {
+						return nil
+					}
+					cmd := exec.Command(self, "replay", "-file", tmp, "-quiet")
+					cmd.Env = os.Environ()
+					outb, _ := cmd.Output()
+					for _, line := range strings.Split(string(outb), "\n") {
+						if strings.HasPrefix(line, "REPLAY-RESULT ") {
+							var v e.Violation
+							if json.Unmarshal([]byte(strings.TrimPrefix(line, "REPLAY-RESULT ")), &v) == nil {
+								return &v
+							}
+						}
+					}
+					return nil
+				}
+				ms, mv, tries := e.Shrink(p, res.Config, steps, res.Violation, time.Duration(*shrinkS)*time.Second, runCand)
+				os.Remove(tmp)
 				wo.ShrinkTry = tries
 				res.ShrunkFrom = orig
 				os.MkdirAll(filepath.Join(verifDir, "replays"), 0o755)
@@ -368,46 +396,57 @@ func cmdRun(args []string) int {
 		wg.Add(1)
 		go func(i int) {
 			defer wg.Done()
-			cmd := exec.Command(self, "worker", "-prop", *prop, "-tier", *tier, "-seed", fmt.Sprint(*seed),
-				"-from", "0", "-to", fmt.Sprint(tc.Runs), "-stride", fmt.Sprint(*workers), "-offset", fmt.Sprint(i),
-				"-shrink", fmt.Sprint(tc.ShrinkS), "-deadline", fmt.Sprint(deadline))
-			cmd.Env = append(os.Environ(), "GOMAXPROCS=2", "HAQQSIM_OUT_FD=3")
-			so, wr, err := os.Pipe()
-			if err != nil {
-				mu.Lock()
-				harness = append(harness, err.Error())
-				mu.Unlock()
-				return
-			}
-			cmd.ExtraFiles = []*os.File{wr}
-			if os.Getenv("HAQQSIM_DEBUG") != "" {
-				cmd.Stderr = os.Stderr
-			}
-			if err := cmd.Start(); err != nil {
-				mu.Lock()
-				harness = append(harness, err.Error())
-				mu.Unlock()
-				return
-			}
-			wr.Close()
-			sc := bufio.NewScanner(so)
-			sc.Buffer(make([]byte, 1<<24), 1<<24)
-			for sc.Scan() {
-				var wo workerOut
-				if err := json.Unmarshal(sc.Bytes(), &wo); err != nil {
-					mu.Lock()
-					harness = append(harness, "bad worker line: "+err.Error())
-					mu.Unlock()
-					continue
+			// one OS process per run: a run can never be influenced by process-global
+			// state left behind by an earlier run (one seed = one repeatable execution)
+			for run := uint64(i); run < tc.Runs; run += uint64(*workers) {
+				if time.Now().Unix() > deadline {
+					break
 				}
-				mu.Lock()
-				results = append(results, wo)
-				mu.Unlock()
-			}
-			if err := cmd.Wait(); err != nil {
-				mu.Lock()
-				harness = append(harness, fmt.Sprintf("worker %d: %v", i, err))
-				mu.Unlock()
+				cmd := exec.Command(self, "worker", "-prop", *prop, "-tier", *tier, "-seed", fmt.Sprint(*seed),
+					"-from", fmt.Sprint(run), "-to", fmt.Sprint(run+1), "-shrink", fmt.Sprint(tc.ShrinkS))
+				cmd.Env = append(os.Environ(), "GOMAXPROCS=2", "HAQQSIM_OUT_FD=3")
+				so, wr, err := os.Pipe()
+				if err != nil {
+					mu.Lock()
+					harness = append(harness, err.Error())
+					mu.Unlock()
+					return
+				}
+				cmd.ExtraFiles = []*os.File{wr}
+				if os.Getenv("HAQQSIM_DEBUG") != "" {
+					cmd.Stderr = os.Stderr
+				}
+				if err := cmd.Start(); err != nil {
+					mu.Lock()
+					harness = append(harness, err.Error())
+					mu.Unlock()
+					wr.Close()
+					so.Close()
+					return
+				}
+				wr.Close()
+				sc := bufio.NewScanner(so)
+				sc.Buffer(make([]byte, 1<<24), 1<<24)
+				got := false
+				for sc.Scan() {
+					var wo workerOut
+					if err := json.Unmarshal(sc.Bytes(), &wo); err != nil {
+						mu.Lock()
+						harness = append(harness, "bad worker line: "+err.Error())
+						mu.Unlock()
+						continue
+					}
+					got = true
+					mu.Lock()
+					results = append(results, wo)
+					mu.Unlock()
+				}
+				so.Close()
+				if err := cmd.Wait(); err != nil || !got {
+					mu.Lock()
+					harness = append(harness, fmt.Sprintf("run %d: worker process failed: %v", run, err))
+					mu.Unlock()
+				}
 			}
 		}(i)
 	}
